@@ -266,6 +266,11 @@ func (fc *fileCtx) walk(n ast.Node) {
 			}
 		case *ast.CallExpr:
 			fc.rewriteSyncCall(c)
+			if sel, ok := c.Fun.(*ast.SelectorExpr); ok {
+				if obj := fc.info.Uses[sel.Sel]; obj != nil && obj.Pkg() != nil && obj.Pkg().Path() == "runtime" && obj.Name() == "SetFinalizer" {
+					fc.degraded(c.Pos(), "runtime.SetFinalizer (library code will run on the finalizer goroutine)")
+				}
+			}
 		}
 		return true
 	})
